@@ -24,7 +24,8 @@ def dtype_guard(rc: RuleCtx, rule: str, modules):
     and the arg-optimum is taken over the wrong values."""
     from ..mutation import MutationAnalysis
     res = rc.res
-    ma = MutationAnalysis(rc.ctx.repo, rc.ctx.linker)
+    from .common import mutation_analysis
+    ma = mutation_analysis(rc)
     n = 0
     for q, fi in sorted(ma.funcs.items()):
         if fi.module.short not in modules:
@@ -233,6 +234,8 @@ def menger(rc: RuleCtx, rule_range: Optional[str], rule_crit: Optional[str]):
     for nme, v in list(benv.items()):
         if isinstance(v, Vec) and v.kind == "list":
             benv[nme] = ev.symbol(nme + "@list")
+    from .common import carry
+    carry(ev, loop, env, benv)
     out = ev.eval_loop_body(fi, loop, benv)
     all_apps = [e for e in out.events if e.kind == "append"]
     prealloc = None
